@@ -22,11 +22,14 @@ def pre_build(ctx):
     ctx.cov["rng_sites_in_repo"] = gen_rngsites.regenerate(ctx)
     import gen_kernels
     ctx.cov["translated_guards"] = gen_kernels.regenerate_guards(ctx)
+    import gen_ownership
+    gen_ownership.regenerate(ctx)
 
 
-THEOREMS = ["Dfols.C19.C19_rng_free", "Dfols.C19.C19_src_rng_reach", "Dfols.C19.C19_growing_default_switch"]
+THEOREMS = ["Dfols.C19.C19_rng_free", "Dfols.C19.C19_src_rng_reach", "Dfols.C19.C19_growing_default_switch",
+            "Dfols.C19.C19_src_solve_writes_only_fresh_objects", "Dfols.C19.C19_src_no_state_outlives_a_call"]
 TRUSTED_EXTRA = [
-    "PARTIAL: absence of writes to caller data is observed (read-only arrays, byte comparison), not proved (Python aliasing not modelled)",
+    "PARTIAL: absence of writes to caller data: inside solve() by the ownership analysis of gen_ownership.py (trusted: its copying-form list and transfer rules) + theorems over its tables; writes by callees through escaping objects are observed (read-only arrays, byte comparison), not proved",
     "the model only says where draws may occur; that a run without draws is a deterministic function of its arguments is the determinism of CPython/NumPy/LAPACK in one process",
     "draw sites are identified from the Python call stack by the wrapper of np.random.normal / np.random.randint",
 ]
